@@ -716,7 +716,7 @@ func c01RootKey(rc *RuleCtx) {
 }
 
 func init() {
-	register(&Rule{ID: "C07.walkerr", Floor: 15,
+	register(&Rule{ID: "C07.walkerr", Floor: 15, Also: []string{"C17"},
 		Text: "the path walk of MemFS returns a nil directory when the volume of the path does not exist: every use of the walk's directory result as an object (field access, lock, method call) is reached only on paths that established it is there - the walk's status compared with 'found', a non-nil child, the iterator at its last part (a fresh iterator is not: an absolute path is longer than its volume name), or an explicit nil test",
 		Run:  c07WalkErr})
 }
@@ -2332,6 +2332,60 @@ func c10Root(rc *RuleCtx) {
 			differ := (bo.Op == token.NEQ) == truth
 			for _, pair := range [][2]ssa.Value{{bo.X, bo.Y}, {bo.Y, bo.X}} {
 				if sameValue(resolve1(pair[0]), resolve1(arg)) && isFieldLoad(resolve1(pair[1]), "basePath") && differ {
+					ok = true
+				}
+			}
+		}
+		if !ok {
+			// the test may be made by a helper that answers nil exactly when the path is not the base path
+			for _, fa := range factsAt(fwd.Block()) {
+				x, isNil, isT := nilTest(fa)
+				if !isT || !isNil {
+					continue
+				}
+				call, isCall := strip(x).(*ssa.Call)
+				if !isCall {
+					continue
+				}
+				h := bodyOf(call.Call.StaticCallee())
+				if h == nil || len(h.Blocks) == 0 || h.Signature.Results().Len() != 1 {
+					continue
+				}
+				// which parameter of the helper receives the translated path
+				var par *ssa.Parameter
+				for i, a := range call.Call.Args {
+					if i < len(h.Params) && sameValue(resolve1(a), resolve1(arg)) {
+						par = h.Params[i]
+					}
+				}
+				if par == nil {
+					continue
+				}
+				all, n := true, 0
+				for _, r := range returnsOf(h) {
+					rv := returnOperand(r, 0)
+					if rv != nil && errNonNil(rc.C, rv, factsAt(r.Block()), 0) {
+						continue
+					}
+					n++
+					differs := false
+					for _, hf := range factsAt(r.Block()) {
+						c, truth := normCond(hf.Cond, hf.Truth)
+						bo, isB := c.(*ssa.BinOp)
+						if !isB || (bo.Op != token.EQL && bo.Op != token.NEQ) || (bo.Op == token.NEQ) != truth {
+							continue
+						}
+						for _, pair := range [][2]ssa.Value{{bo.X, bo.Y}, {bo.Y, bo.X}} {
+							if strip(pair[0]) == ssa.Value(par) && isFieldLoad(resolve1(pair[1]), "basePath") {
+								differs = true
+							}
+						}
+					}
+					if !differs {
+						all = false
+					}
+				}
+				if all && n > 0 {
 					ok = true
 				}
 			}
